@@ -771,4 +771,43 @@ theorem validEmpi_of_counts {G : Type} (P : PRNG G) (hP : MultiOK P) (g : G) (n 
     simp [List.getElem?_map, hP.support g n probs i hn hi]
 
 
+
+/-! ## validate_prob_dist -/
+
+
+theorem firstNegative_none_iff (eps : Rat) (ps : List Rat) (idx : Nat) :
+    firstNegative eps ps idx = none ↔ ∀ p ∈ ps, 0 ≤ p ∨ rabs p ≤ eps := by
+  induction ps generalizing idx with
+  | nil => simp [firstNegative]
+  | cons p t ih =>
+    simp only [firstNegative, List.mem_cons, forall_eq_or_imp]
+    by_cases h : p < 0 ∧ ¬ rabs p ≤ eps
+    · rw [if_pos h]
+      simp only [reduceCtorEq, false_iff, not_and]
+      intro h'; rcases h' with h' | h'
+      · linarith [h.1]
+      · exact absurd h' h.2
+    · rw [if_neg h, ih]
+      constructor
+      · intro hr
+        refine ⟨?_, hr⟩
+        by_cases hp : p < 0
+        · right; by_contra hc; exact h ⟨hp, hc⟩
+        · left; linarith
+      · exact fun hr => hr.2
+
+theorem firstNegative_some (eps : Rat) (ps : List Rat) (idx i : Nat) (h : firstNegative eps ps idx = some i) :
+    ∃ k, i = idx + k ∧ ∃ hk : k < ps.length, ps[k] < 0 ∧ ¬ rabs ps[k] ≤ eps := by
+  induction ps generalizing idx with
+  | nil => simp [firstNegative] at h
+  | cons p t ih =>
+    simp only [firstNegative] at h
+    split at h
+    · rename_i hp
+      injection h with h; subst h
+      exact ⟨0, rfl, by simp, by simpa using hp⟩
+    · obtain ⟨k, hk, hlt, hp⟩ := ih (idx + 1) h
+      exact ⟨k + 1, by omega, by simpa using hlt, by simpa using hp⟩
+
+
 end QM.C14
